@@ -2342,9 +2342,10 @@ class KtBaseMaskFunc(BaseMaskFunc):
         # Create an array of zeros with the target shape
         padded_array = np.zeros(target_shape, dtype=array.dtype)
 
-        # Calculate the slices for inserting the original array into the padded array
+        # Calculate the slices for inserting the original array into the padded array. The array is centered around
+        # index `target_dim // 2` (the k-space center), as in `CartesianVerticalMaskFunc.center_mask_func`.
         insert_slices = tuple(
-            slice((target_dim - current_dim) // 2, (target_dim - current_dim) // 2 + current_dim)
+            slice((target_dim - current_dim + 1) // 2, (target_dim - current_dim + 1) // 2 + current_dim)
             for target_dim, current_dim in zip(target_shape, current_shape)
         )
 
